@@ -13,6 +13,7 @@ import (
 	"unicode/utf8"
 
 	"github.com/tobgu/qframe"
+	qcsv "github.com/tobgu/qframe/config/csv"
 	"github.com/tobgu/qframe/config/groupby"
 
 	"qverif/fw"
@@ -97,6 +98,28 @@ func expectedString(sh *model.Frame) string {
 	}
 	lines = append(lines, fmt.Sprintf("\nDims = %d x %d", len(sh.Cols), n))
 	return strings.Join(lines, "\n")
+}
+
+// csvCellIs reports whether a CSV field denotes cell r of col.
+func csvCellIs(field string, col *model.Col, r int) bool {
+	switch col.Kind {
+	case model.KInt:
+		v, e := strconv.Atoi(field)
+		return e == nil && v == col.I[r]
+	case model.KFloat:
+		if math.IsNaN(col.F[r]) {
+			return field == ""
+		}
+		v, e := strconv.ParseFloat(field, 64)
+		return e == nil && math.Float64bits(v) == math.Float64bits(col.F[r])
+	case model.KBool:
+		v, e := strconv.ParseBool(field)
+		return e == nil && v == col.B[r]
+	}
+	if col.S[r] == nil {
+		return field == ""
+	}
+	return field == *col.S[r]
 }
 
 // rebuildNew builds a fresh frame (identity index, own storage) from a shadow.
@@ -251,6 +274,61 @@ func checkChannels(c *fw.Case, root *model.Root) {
 					}
 				}
 			}
+		}
+	}
+
+	// ToCSV with its options: an explicit (permuted) column order and no header; the cells are the same cells
+	if len(sh.Cols) >= 2 && len(sh.Cols) <= 8 {
+		c.Eval(1)
+		perm := c.Rng.Perm(len(sh.Cols))
+		order := make([]string, len(perm))
+		for i, p := range perm {
+			order[i] = sh.Cols[p].Name
+		}
+		header := c.Rng.Intn(2) == 0
+		var buf bytes.Buffer
+		var werr error
+		if c.GuardFail("tocsv-columns", "ToCSV(Columns, Header)", func() { werr = qf.ToCSV(&buf, qcsv.Columns(order), qcsv.Header(header)) }) {
+			if werr != nil {
+				c.Fail("tocsv-columns-err", "ToCSV(Columns(%q)) failed: %v", order, werr)
+			} else {
+				r := stdcsv.NewReader(bytes.NewReader(buf.Bytes()))
+				r.FieldsPerRecord = -1
+				recs, perr := r.ReadAll()
+				skip := 0
+				if header {
+					skip = 1
+				}
+				single := false // a single empty field per row is written as an empty line, which encoding/csv skips
+				switch {
+				case perr != nil:
+					c.Fail("tocsv-columns-parse", "encoding/csv cannot parse the output of ToCSV(Columns(%q), Header(%v)): %v", order, header, perr)
+				case len(recs) != n+skip && !single:
+					c.Fail("tocsv-columns-rows", "ToCSV(Columns(%q), Header(%v)) wrote %d records for %d rows", order, header, len(recs), n)
+				default:
+					if header && fmt.Sprintf("%q", recs[0]) != fmt.Sprintf("%q", order) {
+						c.Fail("tocsv-columns-header", "ToCSV(Columns(%q)) wrote the header %q", order, recs[0])
+					}
+					for r := 0; r < n && !c.Failed(); r++ {
+						rec := recs[r+skip]
+						if len(rec) != len(order) {
+							c.Fail("tocsv-columns-fields", "ToCSV(Columns) row %d has %d fields", r, len(rec))
+							break
+						}
+						for i, p := range perm {
+							col := sh.Cols[p]
+							if !csvCellIs(rec[i], col, r) {
+								c.Fail("tocsv-columns-cell:"+col.Kind.String(), "ToCSV(Columns(%q)) row %d field %d (column %q) is %q but the view holds %s", order, r, i, col.Name, rec[i], col.CellString(r))
+								break
+							}
+						}
+					}
+				}
+			}
+		}
+		// the observation must not have changed what the other observers report
+		if got := qf.ColumnNames(); fmt.Sprintf("%q", got) != fmt.Sprintf("%q", sh.Names()) {
+			c.Fail("names-after-tocsv-columns", "ColumnNames() = %q after ToCSV(Columns(%q)), was %q", got, order, sh.Names())
 		}
 	}
 
@@ -569,6 +647,43 @@ func runC09(c *fw.Case) {
 		return
 	}
 	equalsBoth(c, "f, rebuild(f) via New", qf, rb, true, "rebuild-new")
+	// ---- siblings: two frames derived from f by adding different columns; the first one is observed afterwards
+	// and must still be, through every observer, f plus its own column
+	if !c.Failed() && rng.Intn(2) == 0 {
+		a := qf.Apply(qframe.Instruction{Fn: 7, DstCol: "sib_a"})
+		var b qframe.QFrame
+		var how string
+		switch rng.Intn(4) {
+		case 0:
+			b, how = qf.WithRowNums("sib_b"), "WithRowNums"
+		case 1:
+			b, how = qf.Copy("sib_b", sh.Cols[0].Name), "Copy"
+		case 2:
+			b, how = qf.Eval("sib_b", qframe.Val(2.5)), "Eval"
+		default:
+			b, how = qf.Apply(qframe.Instruction{Fn: true, DstCol: "sib_b"}), "Apply"
+		}
+		if a.Err == nil && b.Err == nil {
+			c.Count("sibling_pairs", 1)
+			wantA := &model.Frame{Cols: append([]*model.Col(nil), sh.Cols...)}
+			ca := model.NewCol("sib_a", model.KInt, sh.Len())
+			for i := range ca.I {
+				ca.I[i] = 7
+			}
+			wantA.Cols = append(wantA.Cols, ca)
+			gotA, oerr := model.ObserveGuard(a)
+			if oerr != nil {
+				c.Fail("sibling:observe", "f.Apply(sib_a) cannot be observed after f.%s(sib_b): %v", how, oerr)
+			} else if d := model.Diff(wantA, gotA); d != "" {
+				c.Fail("sibling:differs", "f.Apply(sib_a) observed after f.%s(sib_b): %s", how, d)
+			} else {
+				checkChannels(c, &model.Root{Shadow: wantA, QF: a, Shape: root.Shape})
+				if ra := rebuildNew(wantA); ra.Err == nil {
+					equalsBoth(c, "f.Apply(sib_a) observed after a sibling was derived, its rebuild", a, ra, true, "sibling-rebuild")
+				}
+			}
+		}
+	}
 	if ok, en := model.CanCSV(sh); ok {
 		rc := model.BuildCSV(rng, sh, en)
 		if rc.Err == nil {
